@@ -1181,9 +1181,21 @@ def tie_split(res, rng, n):
                       found_input=False)
 
 
-class _FakeSurf:
-    def __init__(self, flag):
-        self.boundary_cond = flag
+def _mcnp_surface(flag):
+    '''A real SurfaceMCNP made by its public constructor (a plane; only the
+    boundary flag matters to the boundary-condition classes).'''
+    from t4_geom_convert.Kernel.Surface.SurfaceMCNP import SurfaceMCNP
+    from t4_geom_convert.Kernel.Surface.ESurfaceTypeMCNP import \
+        ESurfaceTypeMCNP as MS
+    return SurfaceMCNP(flag, MS.P, [1.0, 0.0, 0.0, 0.0], [])
+
+
+def _kind_of(entry):
+    '''The kind string of a CBoundCond-like value (class, namedtuple, ...).'''
+    kind = getattr(entry, 'typeOfBound', None)
+    if kind is None and isinstance(entry, (tuple, list)) and entry:
+        kind = entry[0]
+    return kind
 
 
 def impl_kinds(pairs, parts=None):
@@ -1193,12 +1205,12 @@ def impl_kinds(pairs, parts=None):
     dic = OrderedDict()
     for i, (k, f) in enumerate(pairs):
         npart = parts[i] if parts else 1
-        dic[k] = [(_FakeSurf(f), 1)] * npart
+        dic[k] = [(_mcnp_surface(f), 1) for _ in range(npart)]
     try:
         out = CConversionBoundaryCondition(dic).conversionBoundCond()
     except Exception as exc:      # pylint: disable=broad-except
         return ('err', EXC.get(type(exc).__name__, 'EOther'))
-    return ('ok', [(v.typeOfBound, k) for k, v in out.items()])
+    return ('ok', [(_kind_of(v), k) for k, v in out.items()])
 
 
 def tie_kinds(res, rng, n):
